@@ -14,8 +14,14 @@ TRUE_VALS = ("1", "2")
 
 def gen(R):
     conds = R.choice([["state"], ["event"], ["time"], ["state", "event"], ["state", "time"], ["event", "time"], ["state", "event", "time"], []])
+    conds = list(conds)
+    if R.bool(1, 4):
+        conds.append("mqtt")
+    if R.bool(1, 4):
+        conds.append("webhook")
     cfg = {
         "conds": conds,
+        "mqtt_filter": R.bool(1, 2),
         "timeout": R.choice([None, None, 0, 12.1]),
         "check_now": R.choice([None, None, False, True]),
         "event_filter": R.bool(1, 2),
@@ -28,8 +34,12 @@ def gen(R):
     t = 0.0
     for _ in range(R.int(1, 10)):
         t += R.choice([0.5, 1.0, 2.5, 4.0])
-        k = R.weighted([(4, "set"), (3, "event"), (1, "other")])
-        if k == "set":
+        k = R.weighted([(4, "set"), (3, "event"), (1, "other")] + ([(2, "mqtt")] if "mqtt" in conds else []) + ([(2, "hook")] if "webhook" in conds else []))
+        if k == "mqtt":
+            ops.append([t, "mqtt", R.choice(["go", "go", "stop"])])
+        elif k == "hook":
+            ops.append([t, "hook", R.choice(["hook1", "hook1", "hook2"])])
+        elif k == "set":
             ops.append([t, "set", R.choice(["0", "1", "2", "x"])])
         elif k == "event":
             ops.append([t, "event", R.int(0, 3)])
@@ -52,6 +62,10 @@ def call_src(cfg):
         kw.append("event_trigger=['ev1', 'n > 1']" if cfg["event_filter"] else "event_trigger='ev1'")
     if "time" in cfg["conds"]:
         kw.append("time_trigger='once(2020/01/01 00:00)'" if cfg["time_past"] else "time_trigger='once(now + 7s)'")
+    if "mqtt" in cfg["conds"]:
+        kw.append("mqtt_trigger=['home/a', \"payload == 'go'\"]" if cfg.get("mqtt_filter") else "mqtt_trigger='home/a'")
+    if "webhook" in cfg["conds"]:
+        kw.append("webhook_trigger='hook1'")
     if cfg["timeout"] is not None:
         kw.append(f"timeout={cfg['timeout']}")
     return ", ".join(kw)
@@ -103,7 +117,7 @@ def model(case):
     if "time" in conds:
         if not cfg["time_past"]:
             cands.append((T_CALL + 7.0, 5, "ret", {"trigger_type": "time"}))
-        elif conds == ["time"] and cfg["timeout"] is None:
+        elif [c for c in conds if c != "time"] == [] and cfg["timeout"] is None:
             return ("ret", T_CALL, {"trigger_type": "none"})
     cur = v
     for t, op, arg in case["ops"]:
@@ -127,6 +141,14 @@ def model(case):
             if not cfg["event_filter"] or arg > 1:
                 cands.append((t, 1, "ret", {"trigger_type": "event", "event_type": "ev1", "n": str(arg)}))
                 break
+        elif op == "mqtt" and "mqtt" in conds:
+            if not cfg.get("mqtt_filter") or arg == "go":
+                cands.append((t, 1, "ret", {"trigger_type": "mqtt", "topic": "home/a", "payload": arg, "qos": "0", "retain": "False"}))
+                break
+        elif op == "hook" and "webhook" in conds:
+            if arg == "hook1":
+                cands.append((t, 1, "ret", {"trigger_type": "webhook", "webhook_id": "hook1", "payload": str({"a": "b"})}))
+                break
     if not cands:
         return ("waiting", None, None)
     cands.sort(key=lambda x: (x[0], x[1]))
@@ -135,6 +157,53 @@ def model(case):
 
 
 async def execute(case):
+    import asyncio
+
+    from custom_components.pyscript.event import Event
+    from custom_components.pyscript.function import Function
+    from custom_components.pyscript.state import State
+
+    cfg = case["cfg"]
+    from types import SimpleNamespace
+    from unittest.mock import patch
+
+    # Home Assistant's MQTT / webhook API boundary is replaced by recording fakes that hand messages to the registered handler
+    subs, hooks = [], {}
+
+    async def fake_subscribe(hass, topic, handler, qos=0, encoding="utf-8"):
+        ent = (topic, handler)
+        subs.append(ent)
+
+        def unsub():
+            if ent in subs:
+                subs.remove(ent)
+
+        return unsub
+
+    def fake_register(hass, domain, name, webhook_id, handler, local_only=False, allowed_methods=None):
+        if webhook_id in hooks:
+            raise ValueError("Handler is already defined!")
+        hooks[webhook_id] = handler
+
+    def fake_unregister(hass, webhook_id):
+        hooks.pop(webhook_id, None)
+
+    class FakeRequest:
+        headers = {"Content-Type": "application/json"}
+
+        async def json(self):
+            return {"a": "b"}
+
+        async def post(self):
+            return {"a": "b"}
+
+    with patch("homeassistant.components.mqtt.async_subscribe", fake_subscribe), patch("homeassistant.components.webhook.async_register", fake_register), patch(
+        "homeassistant.components.webhook.async_unregister", fake_unregister
+    ):
+        return await _execute(case, subs, hooks, SimpleNamespace, FakeRequest)
+
+
+async def _execute(case, subs, hooks, SimpleNamespace, FakeRequest):
     import asyncio
 
     from custom_components.pyscript.event import Event
@@ -153,6 +222,8 @@ async def execute(case):
                 "event_notify": {k: len(v) for k, v in Event.notify.items() if v},
                 "bus_ev1": it.hass.bus.async_listeners().get("ev1", 0),
                 "tasks": len([t for t in Function.our_tasks if not t.done()]),
+                "mqtt_subscriptions": len(subs),
+                "webhooks": len(hooks),
             }
 
         timeline = [(t, op, arg) for t, op, arg in case["ops"]] + [(T_CALL, "call", None)]
@@ -167,6 +238,14 @@ async def execute(case):
                 it.set_state("pyscript.v", arg)
             elif op == "event":
                 it.fire("ev1", {"n": arg})
+            elif op == "mqtt":
+                m = SimpleNamespace(topic="home/a", payload=arg, qos=0, retain=False)
+                for tp, h in list(subs):
+                    await h(m)
+            elif op == "hook":
+                h = hooks.get(arg)
+                if h is not None:
+                    await h(it.hass, arg, FakeRequest())
             elif op == "other":
                 u += 1
                 it.set_state("pyscript.u", str(u))
@@ -198,13 +277,13 @@ async def execute(case):
 class C15(ModelCheck):
     prop = PROP
     rule = (
-        "every subset of {state, time, event} conditions x timeout in {None, 0, 12.1} x state_check_now in {unset, "
+        "every subset of {state, time, event} conditions, optionally plus an MQTT topic (with / without payload filter) and a webhook id (both through recording fakes of Home Assistant's API boundary), x timeout in {None, 0, 12.1} x state_check_now in {unset, "
         "False, True} x event filter x a time specification with / without a future instant x a state expression that "
         "can raise x initial truth x subsystem; timed histories of state changes, events and irrelevant changes before, "
         "during and after the call; optional cancellation of the waiting task at a generated instant (and always at "
         "the end if it is still waiting). Oracle: a model of 'first occurrence after the call' gives the returned "
         "dictionary (or exception type) and the virtual return time; the waiting task's State.notify queues, "
-        "Event.notify entries, bus listeners and pyscript tasks after it ended (by return, exception or cancellation) "
+        "Event.notify entries, bus listeners, MQTT subscriptions, registered webhooks and pyscript tasks after it ended (by return, exception or cancellation) "
         "must equal those before the call. Non-trivial = >= 2 conditions, or a cancellation during the wait; distinct "
         "by case content."
     )
